@@ -2,6 +2,9 @@ import CedarVerif.Util.Sexp
 import CedarVerif.Cedar.SchemaSyntax
 import CedarVerif.Cedar.SchemaDecl
 import CedarVerif.Cedar.SchemaDecl2
+import CedarVerif.Cedar.SchemaCollect
+import CedarVerif.Cedar.SchemaFmtCheck
+import CedarVerif.Cedar.SchemaAnnot
 import CedarVerif.Driver.Codec
 /-
 Driver ops of C09 (schema syntaxes):
@@ -12,6 +15,14 @@ Driver ops of C09 (schema syntaxes):
                                                          → (common "q") | (entity "q") | (builtin "Long") | (undefined) | (shadow)
   (sty print-frag <frag>)                                → (toks <tok>…)            whole-fragment printer of fmt.rs
   (sty parse-frag (toks <tok>…))                         → (ok <frag, entries and namespaces sorted>) | (err)   grammar + to_json_schema.rs
+  (sty collect-frag (toks <tok>…))                       → (ok <frag in KEY order, nothing sorted by the codec>) | (err dup-decl) | (err dup-ns) | (err syntax)
+                                                            `parseFragmentCollected` (the BTreeMap collection of to_json_schema.rs)
+  (sty to-cedar-checked <frag> (nonrec "A::B"…))         → (toks <tok>…) | (err collision) | (err nonrecord)     `toCedarChecked`
+  (sty print-frag-a <afrag>)                             → (toks <tok>…)            `printFragmentA` (annotations as `at (id k) [lp (str v) rp]`)
+  (sty parse-frag-a (toks <tok>…))                       → (ok (items <item>…)) | (err)     `parseItemsA` (grammar + `deduplicate_annotations`), AST level:
+                                                            item ::= (ns "A::B" <anns> (entity|action|type <anns>)…) | (decl entity|action|type <anns>), source order
+afrag  ::= (afrag <ans>…)      ans ::= (ns "A::B"|"" <anns> (commons ("N" <anns> tyjson)…) (entities ("N" <anns> ent)…) (actions ("N" <anns> act)…))
+anns   ::= (anns ("k" "v")|("k" none)…)
 frag   ::= (frag <ns>…)        ns ::= (ns "A::B"|"" (commons ("N" tyjson)…) (entities ("N" ent)…) (actions ("N" act)…))
 ent    ::= (std (in "q"…) <record tyjson> (tags tyjson)|(notags)) | (enum "a"…)
 act    ::= (act (in (ref "T"|none "id")…)|(noin) (applies (p "q"…) (r "q"…) tyjson)|(noapplies))
@@ -192,6 +203,24 @@ def encFrag (f : FragmentJ) : String :=
   let nss := (match f.empty with | some d => [encNsJ "" d] | none => []) ++ f.named.map fun x => encNsJ (encQName x.1) x.2
   "(frag" ++ String.join ((CedarVerif.sortStrings nss).map (" " ++ ·)) ++ ")"
 
+/-- entries in the given order (no sorting by the codec) -/
+def encEntriesO {α : Type} (f : α → String) (l : List (String × α)) : String :=
+  String.join (l.map fun x => " (" ++ qstrS x.1 ++ " " ++ f x.2 ++ ")")
+
+def encNsJO (name : String) (d : NamespaceJ) : String :=
+  "(ns " ++ qstrS name ++ " (commons" ++ encEntriesO encTyJson d.commons ++ ") (entities" ++ encEntriesO encEnt d.entities ++
+    ") (actions" ++ encEntriesO encAct d.actions ++ "))"
+
+/-- the empty namespace first (`None` is the least key), then the named ones in the given order -/
+def encFragO (f : FragmentJ) : String :=
+  let nss := (match f.empty with | some d => [encNsJO "" d] | none => []) ++ f.named.map fun x => encNsJO (encQName x.1) x.2
+  "(frag" ++ String.join (nss.map (" " ++ ·)) ++ ")"
+
+def encDeclErr : DeclErr → String
+  | .syntax => "(err syntax)"
+  | .duplicateDecl => "(err dup-decl)"
+  | .duplicateNamespace => "(err dup-ns)"
+
 /-- the harness lexer names `;` `=` `[` `]` semi / eq / lk / rk -/
 def fixTok : Tok → Tok
   | .other "semi" => .other ";" | .other "eq" => .other "=" | .other "lk" => .other "[" | .other "rk" => .other "]"
@@ -201,8 +230,68 @@ def unfixTok : Tok → Tok
   | .other ";" => .other "semi" | .other "=" => .other "eq" | .other "[" => .other "lk" | .other "]" => .other "rk"
   | t => t
 
+
+/-! annotated fragments -/
+def decAnns : Sexp → Option AnnsJ
+  | .list (.atom "anns" :: l) => l.mapM fun
+      | .list [.str k, .str v] => some (k, some v)
+      | .list [.str k, .atom "none"] => some (k, none)
+      | _ => none
+  | _ => none
+
+def decEntriesA {α : Type} (f : Sexp → Option α) : List Sexp → Option (List (AnnsJ × String × α))
+  | [] => some []
+  | .list [.str n, a, x] :: rest =>
+    (match decAnns a, f x, decEntriesA f rest with
+      | some a, some x, some rest => some ((a, n, x) :: rest)
+      | _, _, _ => none)
+  | _ => none
+
+def decNsA : Sexp → Option (String × AnnsJ × NamespaceA)
+  | .list [.atom "ns", .str n, a, .list (.atom "commons" :: cs), .list (.atom "entities" :: es), .list (.atom "actions" :: as)] =>
+    match decAnns a, decEntriesA decTyJson cs, decEntriesA decEnt es, decEntriesA decAct as with
+    | some a, some cs, some es, some as => some (n, a, ⟨cs, es, as⟩)
+    | _, _, _, _ => none
+  | _ => none
+
+def decFragA : Sexp → Option FragmentA
+  | .list (.atom "afrag" :: nss) =>
+    match nss.mapM decNsA with
+    | some l => some ⟨(l.find? (·.1 == "")).map (·.2.2), (l.filter (·.1 != "")).map fun x => (decQName x.1, x.2.1, x.2.2)⟩
+    | none => none
+  | _ => none
+
+def encAnns (a : AnnsJ) : String :=
+  "(anns" ++ String.join (a.map fun x => " (" ++ qstrS x.1 ++ " " ++ (match x.2 with | some v => qstrS v | none => "none") ++ ")") ++ ")"
+
+def declKind : DeclC → String
+  | .ent _ => "entity" | .action _ => "action" | .common _ _ => "type"
+
+def encItemA : ItemA → String
+  | .ns a q ds => "(ns " ++ qstrS (encQName q) ++ " " ++ encAnns a ++
+      String.join (ds.map fun x => " (" ++ declKind x.2 ++ " " ++ encAnns x.1 ++ ")") ++ ")"
+  | .decl a d => "(decl " ++ declKind d ++ " " ++ encAnns a ++ ")"
+
+def fixTokA : Tok → Tok
+  | .other "at" => .other "@" | .other "lp" => .other "(" | .other "rp" => .other ")"
+  | t => fixTok t
+
+def unfixTokA : Tok → Tok
+  | .other "@" => .other "at" | .other "(" => .other "lp" | .other ")" => .other "rp"
+  | t => unfixTok t
+
 def handleSchemaFrag (x : Sexp) : Option String :=
   match x with
+  | .list [.atom "sty", .atom "print-frag-a", f] =>
+    match decFragA f with
+    | some f => some ("(toks" ++ String.join ((printFragmentA f).map fun k => " " ++ encTok (unfixTokA k)) ++ ")")
+    | none => some "(bad-op)"
+  | .list [.atom "sty", .atom "parse-frag-a", .list (.atom "toks" :: ts)] =>
+    match ts.mapM decTok with
+    | some ts => some (match parseItemsA (ts.length + 1) (ts.map fixTokA) with
+      | some its => "(ok (items" ++ String.join (its.map fun i => " " ++ encItemA i) ++ "))"
+      | none => "(err)")
+    | none => some "(bad-op)"
   | .list [.atom "sty", .atom "print-frag", f] =>
     match decFrag f with
     | some f => some ("(toks" ++ String.join ((printFragmentJ f).map fun k => " " ++ encTok (unfixTok k)) ++ ")")
@@ -212,6 +301,19 @@ def handleSchemaFrag (x : Sexp) : Option String :=
     | some ts => some (match parseFragment (ts.map fixTok) with
       | some f => s!"(ok {encFrag f})"
       | none => "(err)")
+    | none => some "(bad-op)"
+  | .list [.atom "sty", .atom "to-cedar-checked", f, .list (.atom "nonrec" :: ns)] =>
+    match decFrag f, decStrs ns with
+    | some f, some ns => some (match toCedarChecked f (ns.map decQName) with
+      | .ok toks => "(toks" ++ String.join (toks.map fun k => " " ++ encTok (unfixTok k)) ++ ")"
+      | .error (.nameCollisions _) => "(err collision)"
+      | .error (.unconvertibleShape _) => "(err nonrecord)")
+    | _, _ => some "(bad-op)"
+  | .list [.atom "sty", .atom "collect-frag", .list (.atom "toks" :: ts)] =>
+    match ts.mapM decTok with
+    | some ts => some (match parseFragmentCollected (ts.map fixTok) with
+      | .ok f => s!"(ok {encFragO f})"
+      | .error e => encDeclErr e)
     | none => some "(bad-op)"
   | _ => none
 end C09Frag
